@@ -12,6 +12,8 @@ MCBeads == << [type |-> <<"a">>,                name |-> <<"a", "b">>],
 \* no prefix, the by-name prefix, and near misses that must stay type patterns
 MCPrefixes == { <<>>, <<"n", "a", "m", "e", ":">>, <<"n", "a", "m", "e">>, <<"n", "a", "m", ":">>,
                 <<"N", "a", "m", "e", ":">>, <<"*", ":">>, <<"n", "a", "m", "e", ":", "a", ":">> }
+MCPos == << <<0, 0, 0>>, <<1, 0, 0>>, <<3, 0, 0>>, <<2, 2, 2>>, <<0, 3, 1>>, <<1, 1, 1>>, <<3, 3, 3>>, <<2, 0, 1>> >>
+MCRefs == { <<0, 0, 0>>, <<3, 1, 0>> }
 MCTree == << [n |-> <<"a">>,           k |-> << <<"a">>, <<"b">>, <<"a", "b">> >>],
              [n |-> <<"a", "b">>,      k |-> << <<"b">>, <<"b", "a">> >>],
              [n |-> <<"b">>,           k |-> << >>],
